@@ -298,6 +298,33 @@ func panicSignature(stderr string) (kind, frame string) {
 	return line, frame
 }
 
+// panicInLibrary reports whether the goroutine that panicked has a frame of hslam/rpc itself on
+// its stack (the panic may surface in a dependency the library called into).
+func panicInLibrary(stderr string) bool {
+	idx := strings.Index(stderr, "panic: ")
+	if j := strings.Index(stderr, "fatal error: "); j >= 0 && (idx < 0 || j < idx) {
+		idx = j
+	}
+	if idx < 0 {
+		return false
+	}
+	rest := stderr[idx:]
+	g := strings.Index(rest, "\ngoroutine ")
+	if g < 0 {
+		return false
+	}
+	block := rest[g+1:]
+	if end := strings.Index(block, "\n\n"); end >= 0 {
+		block = block[:end]
+	}
+	for _, line := range strings.Split(block, "\n") {
+		if strings.HasPrefix(line, "github.com/hslam/rpc.") || strings.HasPrefix(line, "created by github.com/hslam/rpc.") {
+			return true
+		}
+	}
+	return false
+}
+
 // replayCase runs one case in a fresh worker process.
 func (d *driver) replayCase(c json.RawMessage, repeat int, timeout time.Duration, tag string) (fails, runs int, out *outcome, crashed bool, stderr string) {
 	h := sha1.Sum(c)
@@ -628,7 +655,7 @@ func (d *driver) run(replay string) int {
 				_ = stderr
 			}
 		} else {
-			libCrash := f.crash && f.Outcome.Clause == "crash" && strings.Contains(f.Outcome.Sig, "github.com/hslam/rpc")
+			libCrash := f.crash && f.Outcome.Clause == "crash" && (strings.Contains(f.Outcome.Sig, "github.com/hslam/rpc") || panicInLibrary(f.stderr))
 			if (f.Outcome.Timing || f.crash) && !libCrash {
 				inconclusive++
 				d.logf("not reproduced alone (%s) -> inconclusive", rate)
